@@ -28,6 +28,41 @@ func init() {
 	univ.RegisterMethod("bound", "BA", "mokn", i, univ.MVOk)
 	univ.RegisterMethod("bound", "BA", "marg", strp, univ.MCtxErr)
 	univ.RegisterMethod("bound", "BA", "mguard", strp, univ.MCtxErr)
+	univ.RegisterMethod("bound", "BW", "wa", str, univ.MCtxErr)
+	univ.RegisterMethod("bound", "BW", "wb", str, univ.MCtxErr)
+	univ.RegisterMethod("bound", "BW", "wc", i, univ.MCtxErr)
+	univ.RegisterMethod("bound", "BW", "wd", strp, univ.MCtxErr)
+	univ.RegisterMethod("bound", "BW", "we", str, univ.MCtxErr)
+}
+
+// BW: only context-taking methods, no resolver field.
+type BW struct {
+	Vid string
+}
+
+func (w *BW) Wa(ctx context.Context) (string, error) {
+	v, _, err := univ.Method(ctx, probeName, "BW", w.Vid, "wa", nil)
+	return v.Interface().(string), err
+}
+
+func (w *BW) Wb(ctx context.Context) (string, error) {
+	v, _, err := univ.Method(ctx, probeName, "BW", w.Vid, "wb", nil)
+	return v.Interface().(string), err
+}
+
+func (w *BW) Wc(ctx context.Context) (int, error) {
+	v, _, err := univ.Method(ctx, probeName, "BW", w.Vid, "wc", nil)
+	return v.Interface().(int), err
+}
+
+func (w *BW) Wd(ctx context.Context) (*string, error) {
+	v, _, err := univ.Method(ctx, probeName, "BW", w.Vid, "wd", nil)
+	return v.Interface().(*string), err
+}
+
+func (w *BW) We(ctx context.Context) (string, error) {
+	v, _, err := univ.Method(ctx, probeName, "BW", w.Vid, "we", nil)
+	return v.Interface().(string), err
 }
 
 func (a *BA) Mctx(ctx context.Context) (*string, error) {
